@@ -98,8 +98,7 @@ class SetDefaultOptions(Unit):
         c.oblige("C19.set_default_options.returns_only_if_good", z3.Not(bad),
                  note="a value outside its documented domain was accepted")
         # every key present
-        for k in OPTION_KINDS:
-            c.oblige(f"C19.set_default_options.post.present.{k}", opts.present(k))
+        c.oblige_all([(f"C19.set_default_options.post.present.{k}", opts.present(k)) for k in OPTION_KINDS])
         o = {k: opts.value(k) for k in OPTION_KINDS}
         typed = all(isinstance(o[k], {"f": SF, "i": SI, "b": (SB, bool)}[OPTION_KINDS[k]]) or
                     (OPTION_KINDS[k] == "f" and isinstance(o[k], float)) or
@@ -114,6 +113,8 @@ class SetDefaultOptions(Unit):
                                                                 z3.Implies(z3.Or(n.t >= 1, P("maxfev")), mf >= 1),
                                                                 z3.Implies(z3.Or(n.t >= 1, P("maxiter")), mi >= 1)))
         # supplied values are kept
+        kept = []
+        from pyvc.core import tobool
         for k in OPTION_KINDS:
             pv = V(k)
             if OPTION_KINDS[k] == "f":
@@ -121,9 +122,9 @@ class SetDefaultOptions(Unit):
             elif OPTION_KINDS[k] == "i":
                 same = it(o[k]) == it(pv)
             else:
-                from pyvc.core import tobool
                 same = tobool(o[k]) == tobool(pv)
-            c.oblige(f"C19.set_default_options.post.supplied_kept.{k}", z3.Implies(P(k), same))
+            kept.append((f"C19.set_default_options.post.supplied_kept.{k}", z3.Implies(P(k), same)))
+        c.oblige_all(kept)
         # documented defaults / derivations for unsupplied keys
         D = {
             "radius_init": z3.If(P("radius_final"), z3.If(rv(V("radius_final")) > 1, rv(V("radius_final")), z3.RealVal(1)), z3.RealVal(1)),
@@ -186,17 +187,18 @@ class SetDefaultConstants(Unit):
                  note="a constant outside its documented domain / order was accepted")
         if not isinstance(res, SDict):
             raise Unsupported("expected the completed constants dict")
-        for k in CONST_DOMAINS:
-            c.oblige(f"C19.set_default_constants.post.present.{k}", res.present(k))
+        c.oblige_all([(f"C19.set_default_constants.post.present.{k}", res.present(k)) for k in CONST_DOMAINS])
         out = {k: res.value(k) for k in CONST_DOMAINS}
         c.oblige("C19.set_default_constants.post.valid", constants_valid(out))
         from pyvc.core import tobool
+        grp = []
         for k, (kd, *_r) in CONST_DOMAINS.items():
             if kd == "b":
-                c.oblige(f"C19.set_default_constants.post.supplied_kept.{k}", z3.Implies(P[k], tobool(out[k]) == tobool(V[k])))
-                c.oblige(f"C19.set_default_constants.post.default.{k}", z3.Implies(z3.Not(P[k]), tobool(out[k]) == z3.BoolVal(CONST_DEFAULTS[k])))
+                grp.append((f"C19.set_default_constants.post.supplied_kept.{k}", z3.Implies(P[k], tobool(out[k]) == tobool(V[k]))))
+                grp.append((f"C19.set_default_constants.post.default.{k}", z3.Implies(z3.Not(P[k]), tobool(out[k]) == z3.BoolVal(CONST_DEFAULTS[k]))))
             else:
-                c.oblige(f"C19.set_default_constants.post.supplied_kept.{k}", z3.Implies(P[k], rv(out[k]) == rv(V[k])))
+                grp.append((f"C19.set_default_constants.post.supplied_kept.{k}", z3.Implies(P[k], rv(out[k]) == rv(V[k]))))
+        c.oblige_all(grp)
         # documented defaults; for coupled pairs the documented derivation from the supplied partner
         pairs = {}
         for a, op, b in CONST_RELATIONS:
@@ -221,6 +223,7 @@ class SetDefaultConstants(Unit):
             "penalty_increase_factor": lambda: mx(dflt("penalty_increase_factor"), rv(V["penalty_increase_threshold"])),
             "penalty_increase_threshold": lambda: mn(dflt("penalty_increase_threshold"), rv(V["penalty_increase_factor"])),
         }
+        dgrp = []
         for k, (kd, *_r) in CONST_DOMAINS.items():
             if kd == "b":
                 continue
@@ -228,7 +231,8 @@ class SetDefaultConstants(Unit):
                 exp = z3.If(P[pairs[k]], derive[k](), dflt(k))
             else:
                 exp = dflt(k)
-            c.oblige(f"C19.set_default_constants.post.default.{k}", z3.Implies(z3.Not(P[k]), rv(out[k]) == exp))
+            dgrp.append((f"C19.set_default_constants.post.default.{k}", z3.Implies(z3.Not(P[k]), rv(out[k]) == exp)))
+        c.oblige_all(dgrp)
         warns = [e for e in c.log if e[0] == "warn"]
         c.oblige("C19.set_default_constants.post.unknown_key_warns_once", z3.BoolVal(len(warns) == (1 if unknown else 0)))
         c.oblige("C19.set_default_constants.post.warning_is_RuntimeWarning", z3.BoolVal(all(w[2] is RuntimeWarning for w in warns)))
